@@ -14,7 +14,8 @@ SAN_tsan := -fsanitize=thread -fno-omit-frame-pointer
 SAN_plain :=
 SAN := $(SAN_$(F))
 OPT := -O1 -g
-DEFS := -DBLOC_VERIF '-DLIBVERSION="$(LIBVERSION)"' '-DLIBSOVERSION="$(LIBSOVERSION)"' -DLIB_DLL_EXPORTS '-DSIM_FLAVOUR="$(F)"'
+# the library's own compile-time trace switches are on: every trace point is a scheduling point for the simulator (BLOC_VERIF hook in bloc::DBG)
+DEFS := -DBLOC_VERIF -DDEBUG_COMPLEX -DDEBUG_SYMBOL -DDEBUG_VALUE '-DLIBVERSION="$(LIBVERSION)"' '-DLIBSOVERSION="$(LIBSOVERSION)"' -DLIB_DLL_EXPORTS '-DSIM_FLAVOUR="$(F)"'
 INC := -I$(REPO) -I$(REPO)/blocc -I/verif/sim -I/verif
 CXXFLAGS := -std=c++17 $(OPT) $(SAN) $(DEFS) $(INC) -fPIC -Wno-deprecated-declarations -MMD -MP
 CFLAGS := $(OPT) $(SAN) $(DEFS) $(INC) -fPIC -MMD -MP -Wno-unused-function
